@@ -87,6 +87,7 @@ def run(idx, rep, tier):
     r4(idx, rep)
     r5(idx, rep)
     spooler_table(idx, rep, "R1")
+    empty_collection(idx, rep, "R1")
     r6(idx, rep)
     rep.stats["exhaustive"] = True
 
@@ -315,6 +316,57 @@ def spooler_table(idx, rep, rid):
     ok = len(ps) == 1 and ps[0].result[0] == "return" and written == [["a", "b"], ["c", "d"]]
     rep.check(ok, rid, f"{fa.file}::CsvLineSpooler.append writes the line at append time",
               f"data.csv would hold {written}; the run collected [['a', 'b'], ['c', 'd']] (a line rewritten after it was collected must not change what was archived)", K.where(fa, fa.node))
+
+
+def empty_collection(idx, rep, rid):
+    """a collecting member that matched no line still has data — the empty data.csv — by the time it is saved: the next member
+    (source-mode: preceding) and replays read it back as no lines.  (1) ResultsManager.save closes the member's spooler whatever its
+    length (a spooler with no lines is falsy); (2) CsvLineSpooler.close opens the data file when nothing was written in a collecting
+    run, and not in a run that does not collect (fast_forward)"""
+    fsave = idx.method("ResultsManager", "save")
+    fc = idx.method("CsvLineSpooler", "close")
+    rep.analysed(fsave, fc)
+
+    def iso(interp, args, call):
+        return True  # the member's lines are a LineSpooler
+
+    bad = None
+    for nlines in (0, 2):
+        it = Interp(idx, types={"self": "ResultsManager", "spool": "CsvLineSpooler"}, unknown_calls="residual", isinstance_oracle=iso,
+                    domains={"self._csvpaths": [Obj("cps")]},
+                    handlers={"spool.close": lambda i, c, r, a, k: i.record_call("close"), "self.do_transfers_if": lambda i, c, r, a, k: None,
+                              "ResultSerializer": lambda i, c, r, a, k: Obj("rs"), "rs.save_result": lambda i, c, r, a, k: i.record_call("save_result"),
+                              "ResultRegistrar": lambda i, c, r, a, k: Obj("rr"), "rr.register_complete": lambda i, c, r, a, k: None})
+        ps = it.run_all(fsave, args={"result": Obj("res")}, store={"res.lines": Obj("spool"), "spool._count": nlines, "spool.sink": [None] * nlines})
+        for p in ps:
+            ev = [kk for k, kk, v in p.trace if k == "call" and kk in ("close", "save_result")]
+            if p.result[0] != "return" or ev != ["close", "save_result"]:
+                bad = bad or f"member with {nlines} collected line(s): save does {ev} ({p.result[0]}); documented: close the spooler, then serialise — also for a member that collected nothing"
+    rep.check(bad is None, rid, f"{fsave.file}::ResultsManager.save closes the spooler whatever its length", bad or "", K.where(fsave, fsave.node))
+    bad = None
+    for collecting, wrote in ((True, False), (False, False), (True, True)):
+        opened = []
+
+        def load_if(i, c, r, a, k):
+            opened.append(1)
+            i.store["self.writer"] = Obj("writer")
+            i.store["self.sink"] = Obj("sink")
+
+        it = Interp(idx, types={"self": "CsvLineSpooler"}, unknown_calls="residual", inline_all={"CsvLineSpooler", "LineSpooler"},
+                    handlers={"self.load_if": load_if, "sink.close": lambda i, c, r, a, k: i.record_call("sink.close"), "sink.flush": lambda i, c, r, a, k: None})
+        st = K.instance_store(idx, "CsvLineSpooler")
+        st.update(K.instance_store(idx, "LineSpooler"))
+        st.update({"self.writer": Obj("writer") if wrote else None, "self.sink": Obj("sink") if wrote else None, "self._count": 2 if wrote else 0, "self.closed": False,
+                   "self.result": Obj("res"), "res.csvpath": Obj("cp"), "cp.collecting": collecting})
+        ps = it.run_all(fc, store=st)
+        want_open = collecting and not wrote
+        for p in ps:
+            if p.result[0] != "return" or bool(opened) != want_open:
+                bad = bad or (f"collecting={collecting}, lines written={wrote}: close() {'opens' if opened else 'does not open'} the data file ({p.result[0]}); documented: "
+                              f"{'an empty data.csv is left for a collecting run that matched nothing' if want_open else 'no file is created'}")
+            if (wrote or want_open) and not p.calls("sink.close"):
+                bad = bad or f"collecting={collecting}, lines written={wrote}: the data file is left open"
+    rep.check(bad is None, rid, f"{fc.file}::CsvLineSpooler.close leaves an empty data.csv for an empty collection", bad or "", K.where(fc, fc.node))
 
 
 def r6(idx, rep):
